@@ -157,6 +157,14 @@ namespace XKoJen
                 PutIntoFragmentBuffer(data, size_to_process);
                 // Enough data is present to determine the required message size.
                 sMsgHeader* header = (sMsgHeader*)(&m_fragment_buffer[0]);
+                if (header->PayloadSize > 0xFFFFFFFF - SizeOfHeader)
+                {
+                    // The announced payload does not fit the 32 bit message size (it would wrap) : this is not a message.
+                    // Drop the buffered header and look for the next preamble in the data just received.
+                    ResetFragmentation();
+                    OnDataReceived(data, count);
+                    return;
+                }
                 uint32 msgSize = SizeOfHeader + header->PayloadSize;
 #if defined(__arm__)
                 // No crashing for garbage received...data is parsed over, but not written to buffer.
@@ -229,6 +237,13 @@ namespace XKoJen
         {
             // Enough data is present to determine the required message size.
             sMsgHeader* header = (sMsgHeader*)(&data[0]);
+            if (header->PayloadSize > 0xFFFFFFFF - SizeOfHeader)
+            {
+                // The announced payload does not fit the 32 bit message size (it would wrap) : this is not a message.
+                // Skip this preamble byte and resynchronise on what follows.
+                OnDataReceived(std::addressof(data[1]), count - 1);
+                return;
+            }
             uint32 msgSize = SizeOfHeader + header->PayloadSize;
             if (count < msgSize)
             {
